@@ -82,6 +82,9 @@ def strategy(tier):
         # an emit with callback whose payload cannot be encoded: the
         # application is told, nothing else changes
         st.fixed_dictionaries({'op': st.just('emit_fail'), 'ns': nsi}),
+        # the server ends one namespace; the others, with their outstanding
+        # callbacks, are not affected
+        st.fixed_dictionaries({'op': st.just('sdisc_ns'), 'ns': nsi}),
         st.fixed_dictionaries({'op': st.just('ack'), 'ns': nsi, 'sel': sel,
                                'j': st.integers(0, 5), 'args': args,
                                'dup': st.booleans(),
@@ -268,6 +271,22 @@ def _run(case, h):
     for step, op in enumerate(case['ops']):
         k = op['op']
         ns = nss[op['ns'] % len(nss)]
+        if k == 'sdisc_ns':
+            if len(nss) < 2:
+                continue
+            for f in wire.frames(wire.DISCONNECT, ns):
+                h.deliver(f)
+            nss.remove(ns)
+            outstanding[ns].clear()
+            used[ns][:] = []
+            h.take_msgs()
+            if ns in sio.namespaces:
+                raise Violation('namespace-still-listed', ns)
+            labels['server_ended_one_namespace'] = True
+            if any(outstanding[n] for n in nss):
+                labels['nontrivial'] = True
+            check_quiet(step, 'sdisc_ns')
+            continue
         if k == 'ev':
             dirs.add('in')
             tag[0] += 1
